@@ -134,7 +134,7 @@ PROPS = {
     },
     "C20": {
         "rules": [kind_scope("mecab"), r_cost.run_c20, r_fmt.bigram_files, r_misc.template_cover,
-                  r_scorer.scorer_build, r_misc.regex_mecab, r_scorer.padval, r_scorer.reserved0],
+                  r_scorer.scorer_build, r_misc.regex_mecab, r_scorer.padval, r_scorer.reserved0, r_misc.mecab_ids],
         "explanation": "KIND: the documented left/right inversion of right-id.def/left-id.def is "
                        "applied consistently (readers, extractors, maps, writers, loop bounds vs "
                        "looked-up map); SIGN: cost = -(weight x factor); COSTTYPE: i32 as the "
@@ -467,7 +467,9 @@ _ADDED = {
             "discarded on the corpus path. TRAINPANIC: panic-site audit of compatible_unk_index "
             "and Trainer::build_lattice under the assumption that the corpus is tokenizer output.",
             "path rules over MIR, panic-site audit with table"),
-    "C20": ("TEMPLATE: the expansion that is matched against model.def lines copies every "
+    "C20": ("MECABIDS: malformed id lines, an id 0 that is not BOS/EOS and a gap in the ids reach "
+            "Err; both lists are written for ids 1..len; BOS/EOS text is removed before the model "
+            "line is split. TEMPLATE: the expansion that is matched against model.def lines copies every "
             "literal segment of the template. SCORERBUILD: the double array places a row only at "
             "a base that check_base found free for all of its keys.",
             "loop-shape rule over symbolic slices"),
